@@ -267,6 +267,20 @@ class Register(_RegBase):
                 ("the uri handed back is the one for that id", z3.BoolVal(isinstance(result, VObj) and result.cls == "Pyro5.core.URI")),
                 ("a class is never registered weakly", z3.Not(z3.And(is_class(o), self.weak))),
                 ("the object's id and daemon attributes come together", self.pair_invariant(st, o))]
+        fin = [e for e in st.events if e[0] == "finalize"]
+        post.append(("a collection callback is installed exactly for weak registrations", z3.BoolVal(len(fin) <= 1) if len(fin) > 1 else (z3.BoolVal(bool(fin)) == self.weak)))
+        for e in fin:
+            cb = e[2][0] if e[2] else None
+            unconditional = isinstance(cb, VBound) and cb.name == "unregister"
+            # Daemon.unregister(id) forgets the id whatever it designates (contract below): used as the collection callback it would also
+            # remove an object registered under the same id later (after an unregister or a forced take-over)
+            post.append(("collecting a weakly registered object may forget its id only while the id still designates that object "
+                         "(the callback must not be the unconditional unregister-by-id)", z3.BoolVal(not unconditional)))
+            if isinstance(cb, VBound) and cb.name != "unregister":
+                post.append(("the callback is the daemon's own collected-object handler, for this id and this weak reference",
+                             z3.BoolVal(cb.name == "_unregister_collected" and isinstance(cb.recv, VObj) and cb.recv.ref == self.d.ref and len(e[2]) == 3)))
+                if len(e[2]) == 3 and isinstance(e[2][2], VOpaque):
+                    post.append(("... bound to the id just registered and to the very weak reference stored under it", z3.And(box(e[2][1]) == k, e[2][2].e == v1)))
         if self.variant == "given-id":
             given = z3.And(self.oid.e != U_NONE, truthy(self.oid.e))
             post.append(("a given (non-empty) id is the one used, and it is a string; otherwise an id is generated", z3.And(is_str(k), z3.Implies(given, k == self.oid.e))))
@@ -429,3 +443,23 @@ class AutoProxy(_RegBase):
 
     def x_any(self, E, old, st, a, exc):
         return [("only making the proxy can fail", z3.BoolVal(len([e for e in st.events if e[0] == "proxyFor"]) == 1))]
+
+
+@R.contract
+class UnregisterCollected(_RegBase):
+    name = "Pyro5.server.Daemon._unregister_collected"
+    raises = {}
+
+    def setup(self, E, st):
+        d = self.mk(E, st)
+        self.oid = VOpaque(z3.Const("objectId", U))
+        self.ref = VOpaque(z3.Const("weak_reference", U))
+        st.assume(self.ref.e != U_NONE)
+        return {"self": d, "objectId": self.oid, "ref": self.ref}
+
+    def ensures(self, E, old, st, a, result):
+        p0, v0 = _entry(old, self.d, self.oid.e)
+        p1, _ = _entry(st, self.d, self.oid.e)
+        mine = z3.And(p0, v0 == self.ref.e)
+        return [("the id is forgotten exactly when it still holds the collected object's weak reference", z3.If(mine, z3.Not(p1), same_entry(old, st, self.d, self.oid.e))),
+                ("every other id is untouched", z3.Implies(KSTAR != self.oid.e, same_entry(old, st, self.d, KSTAR)))]
